@@ -259,8 +259,11 @@ def run(ctx: Ctx) -> None:
                     neg = any(isinstance(s, ast.Assign) and isinstance(s.value, ast.UnaryOp) and isinstance(s.value.op, ast.USub) for b in m.body for s in ast.walk(b))
                     facts = {"pattern": txt[:80], "negates": neg}
                     folded = neg and ("int" in txt)
-        ctx.check(folded, "R-C17.3", f"{vu.qualname}#folds-negative-int-literals", vu.where, facts,
-                  "`-9223372036854775808` is checked as 9223372036854775808 (out of range) and negated afterwards")
+        if not facts:
+            ctx.undecided("R-C17.3", f"{vu.qualname}#folds-negative-int-literals", vu.where, f"not interpretable ({fold_und}) and no `case USub(), Constant(...)` arm to look at")
+        else:
+            ctx.check(folded, "R-C17.3", f"{vu.qualname}#folds-negative-int-literals", vu.where, facts,
+                      "`-9223372036854775808` is checked as 9223372036854775808 (out of range) and negated afterwards")
 
     # ------------------------------------------------------------ R-C17.4 lowering by signedness
     from . import c17_lowering
